@@ -215,3 +215,13 @@ Definition lowest_res (r : res) : bool :=
   match r with RVal v => lowest v | RCond CDivZero => true | _ => false end.
 Definition div_value_domain (args : list val) (m_res : res) : bool :=
   forallb wf args && (2 <=? Z.of_nat (length args)) && exact_res m_res.
+
+(* ---- + - * abs 1+ 1- at the level of values: operands as math/big holds them (ratios in lowest terms,
+   denominator 1 possible; bignum objects of any value), and a run that never left the exact types ---- *)
+Definition arith_value_domain (o : opn) (args : list val) (m_res : res) : bool :=
+  match o with
+  | OAdd | OMul => true
+  | OSub => negb (Nat.eqb (length args) 0)
+  | OInc | ODec | OAbs => Nat.eqb (length args) 1
+  | _ => false
+  end && forallb lowest args && exact_res m_res.
